@@ -426,3 +426,5 @@ MUTANTS.append(Mutant("lost-skips-traffic-timer", MGR, "        if self._traffic
                       "after a loss found by the timer itself the TrafficTimer stays `connected`: the next connection raises before connection_made"))
 MUTANTS.append(Mutant("oneshot-fires-synchronously", "src/wormhole/observer.py", "    def when_fired(self):\n        d = Deferred()\n",
                       "    def when_fired(self):\n        d = Deferred()\n        if self._result is not NoResult and not self._observers:\n            d.callback(self._result)\n            return d\n", "C11.R6"))
+
+MUTANTS.append(Mutant("manager-remembers-hints", MGR, "        hint_objs = list(hint_objs)\n        self._connector.got_hints(hint_objs)\n", "        hint_objs = [h for h in hint_objs if h not in self._seen_hints]\n        self._seen_hints.extend(hint_objs)\n        self._connector.got_hints(hint_objs)\n", "C11.R11", "seed C11-19"))
